@@ -5,6 +5,8 @@ Lean functions over Int (lean/Dtaiverif/Generated/CBand.lean) — a program slic
   * lb_keogh, lb_keogh_euclidean:  window, imin_diff, imax_diff, imin, imax
   * dtw_distance, dtw_distance_ndim, dtw_distance_euclidean, dtw_distance_ndim_euclidean:
         window, ldiff, dl, length, dl_window, ldiff_window, maxj, minj, skip, skipp, i0, i1
+  * dtw_wps_parts (whole function, no row loop): the integer fields of the returned layout descriptor
+        (window, ldiff, ldiffr, ldiffc, width, overlap_left_ri, overlap_right_ri, length, ri1, ri2, ri3)
 
 For every function two state transformers over one environment structure are produced: `<fn>_pre` (the statements before
 the row loop `for (i=0; i<l1; i++)`) and `<fn>_row` (one iteration of that loop).  Statements that do not assign a tracked
@@ -30,7 +32,11 @@ INPUTS = ["l1", "l2", "i", "sc", "settings_window"]
 FUNCS = [("lb_keogh", "seq_t", LB_TRACK), ("lb_keogh_euclidean", "seq_t", LB_TRACK),
          ("dtw_distance", "seq_t", DIST_TRACK), ("dtw_distance_ndim", "seq_t", DIST_TRACK),
          ("dtw_distance_euclidean", "seq_t", DIST_TRACK), ("dtw_distance_ndim_euclidean", "seq_t", DIST_TRACK)]
-FIELDS = sorted(set(LB_TRACK + DIST_TRACK + INPUTS))
+# dtw_wps_parts has no row loop: the whole function is one transformer; its struct fields `parts.x` are read as `parts_x`
+PARTS_TRACK = ["parts_window", "parts_ldiff", "parts_ldiffr", "parts_ldiffc", "parts_width", "parts_overlap_left_ri",
+               "parts_overlap_right_ri", "parts_length", "parts_ri1", "parts_ri2", "parts_ri3"]
+WHOLE = [("dtw_wps_parts", "DTWWps", PARTS_TRACK)]
+FIELDS = sorted(set(LB_TRACK + DIST_TRACK + INPUTS + PARTS_TRACK))
 
 
 class Unsupported(Exception):
@@ -111,7 +117,7 @@ def parse_seq(s):
 
 # ---------------------------------------------------------------------------------- expressions
 def c_to_py(e):
-    e = e.replace("settings->", "settings_")
+    e = e.replace("settings->", "settings_").replace("parts.", "parts_")
     e = re.sub(r"\bMAX\s*\(", "max(", e)
     e = re.sub(r"\bMIN\s*\(", "min(", e)
     e = e.replace("&&", " and ").replace("||", " or ")
@@ -185,6 +191,7 @@ def split_top(s):
 def simple_assignments(text, track):
     """tracked assignments made by a simple statement: list of (var, lean-rhs-builder)"""
     out = []
+    text = text.replace("parts.", "parts_")
     m = DECL.match(text)
     items = split_top(m.group(1)) if m else [text]
     for it in items:
@@ -219,9 +226,11 @@ def touches(st, track):
     if kind == "if":
         return touches(st[2], track) or (st[3] is not None and touches(st[3], track))
     if kind == "for":
-        return touches(st[2], track) or bool(re.search(r"\b(%s)\b\s*(=(?!=)|\+\+|--|\+=|-=)" % "|".join(track), st[1]))
+        return touches(st[2], track) or bool(re.search(r"\b(%s)\b\s*(=(?!=)|\+\+|--|\+=|-=)" % "|".join(track),
+                                                       st[1].replace("parts.", "parts_")))
     if kind == "opaque":
-        return bool(re.search(r"\b(%s)\b\s*(=(?!=)|\+\+|--|\+=|-=|\*=)" % "|".join(track), st[1]))
+        return bool(re.search(r"\b(%s)\b\s*(=(?!=)|\+\+|--|\+=|-=|\*=)" % "|".join(track),
+                              st[1].replace("parts.", "parts_")))
     return False
 
 
@@ -314,6 +323,14 @@ def main():
             for part, ss in (("pre", pre), ("row", row)):
                 L += emit_function("%s_%s" % (fn, part), ss, track) + [""]
                 names.append("%s_%s" % (fn, part))
+        for fn, rtype, track in WHOLE:
+            m = re.search(r"\n%s\s+%s\s*\(([^)]*)\)\s*\{" % (rtype, fn), src)
+            if not m:
+                raise Unsupported("function %s not found" % fn)
+            ob = src.index("{", m.end() - 1)
+            body = src[ob + 1:match_paren(src, ob, "{", "}")]
+            L += emit_function(fn, parse_seq(body), track) + [""]
+            names.append(fn)
         L.append("def functions : List String := [%s]" % ", ".join('"%s"' % n for n in names))
         L += ["", "end Dtai.Gen.CBand", ""]
     except (Unsupported, OSError, ValueError, AssertionError) as e:
